@@ -16,13 +16,14 @@
      wext w w'        = spent and signature tables of w' extend those of w (nothing removed or altered)
      same_but_calls   = nothing changed but the call counter
      settled w h      = the backend reports the own invoice with payment hash h as settled
+     ordered b a s p  = on every path of program p (for every response, so for every fault and cut) an event `a` is preceded by an event `b`
 
    quote_issued_at_most_once_per_payment: ghost lists iss/cred of issuance and internal-credit events along the history (qtrace);
    honest = the invoice subscription only reports invoices that are settled.  Concurrent MintTokens on one quote are NOT safe in the
-   code (known finding, c03-sched).
+   code: mint_mint_race is the computed schedule (known finding, c03-sched).
 *)
 From Coq Require Import ZArith List Bool.
-From Verif Require Import Model Sem InvDb InvSwap InvMint InvMelt Corollaries Queries Footprint HRel Global GlobalQuote GlobalValue GlobalErr GlobalQuery GlobalMelt GlobalKeys Cuts.
+From Verif Require Import Model Sem InvDb InvSwap InvMint InvMelt Corollaries Queries Footprint HRel Global GlobalQuote GlobalValue GlobalErr GlobalQuery GlobalMelt GlobalKeys Cuts CutOrder Conc Races GlobalBalance.
 Import ListNotations.
 Open Scope Z_scope.
 
@@ -96,4 +97,13 @@ Print Assumptions C03_watcher_only_unpaid.
 Theorem C03_quotes_never_altered : forall (cfg : config) (h : list hitem) (w : world), quotes_ext w (hrun cfg w h).
 Proof. exact @quotes_never_altered. Qed.
 Print Assumptions C03_quotes_never_altered.
+
+Theorem C03_mint_mint_race : let w0 := hrun cfg1 world0 mint_race_prefix in
+       let
+       '(w, rs) := run_concurrent cfg1 w0 mint_race_ops mint_race_sched in
+        issuedZ w = 16 /\
+        map mq_amount (d_mq (w_db w)) = [8] /\
+        (exists a b : list srow, rs = [RSigs a; RSigs b] /\ a <> [] /\ b <> []).
+Proof. exact @mint_mint_race. Qed.
+Print Assumptions C03_mint_mint_race.
 
